@@ -43,6 +43,12 @@ CLAIMED = {
  "C12": ("seq", "exploration",
          "Seeded walk over the rule space of all five families (every enum value incl. unregistered custom strategies, boundary and out-of-range numerics, NaN, empty/blank names) through every loading entry point, followed by entries with batch {0,1,2,10^6}, argument lists and attachments, virtual time steps and exits; every call under catch_unwind and the run watchdog, each run isolated on its own thread with a health probe of all managers afterwards (a poisoned lock is visible to this run and to no other).",
          "DESIGN.md §4 C12", "deterministic simulation: isolated runs with virtual time, catch_unwind + watchdog + health probe over a seeded rule-space walk", SEQ_NOTE),
+ "C11": ("seq", "exploration",
+         "Differential deterministic simulation: the same seeded traffic history on a target guarded by one stateful rule (10 rule variants) is executed without and with a reload (load-all / load-for-resource, equal target rule under a new id, unrelated resources changed) at a random point, 3000 virtual seconds apart so that every bucket alignment is preserved; decisions, waits, block types and breaker states must be identical. A changed threshold must be followed by the very next entry.",
+         "DESIGN.md §4 C11", "deterministic simulation: differential re-execution of one seeded history with/without reload under the virtual clock", SEQ_NOTE),
+ "C17": ("seq", "exploration",
+         "Seeded deterministic simulation over a grid of configurations given as entity and as YAML text: accept/refuse compared with an independent predicate; for accepted ones a node created on the initialising thread and one created on a second (spawned-and-joined, never concurrent) thread run the same virtual-time write/read history and must both show the configured geometry.",
+         "DESIGN.md §4 C17", "deterministic simulation: serialised real threads + virtual clock, behavioural measurement of window geometry vs reference", SEQ_NOTE),
 }
 
 PENDING_REASON = "check not built yet in this round (design in DESIGN.md §4); not claimed until it runs"
